@@ -14,7 +14,7 @@ RULE = ("session scripts of 2-3 concurrent connections (handshake, enableBLOB Ne
         "traffic; 8-12 steps; 5 hand-written scripts, thorough adds 40 generated ones) on real connection handlers driven through fake streams (TCP: ConnectionHandler.handler(router) on a "
         "StreamReader + FakeWriter; TTY: ConnectionHandler.handle() on a fake stdin/stdout; mixed) x fault in {EOF, read error, EOF "
         "inside a message, junk then EOF, exception while one of its messages is handled, write+drain error on the peer followed by a "
-        "reset} injected at EVERY step index. Monitors after the fault and after every later step: Router.clients, "
+        "reset, cancellation of the serving task} injected at EVERY step index. Monitors after the fault and after every later step: Router.clients, "
         "Router.blob_routing, ConnectionHandler.connections, writer.closed, writes after close, calls of message_from_device on the "
         "ended handler, and the marker sequence each surviving connection received versus a reference policy model; a reconnecting "
         "peer must start from default settings. non-trivial = every (script, fault, position, transport mix); distinct = hash of it")
@@ -25,7 +25,7 @@ REQUIRED_EVENTS = ["sessions", "faults_injected", "ended_connections_checked", "
 EXHAUSTIVE_NOTE = "every fault kind at every step index of every script, for each transport mix of the tier"
 
 QUICK_SHARDS = 4
-FAULTS = ["eof", "read-error", "eof-inside-message", "junk-then-eof", "handler-exception", "write-error"]
+FAULTS = ["eof", "read-error", "eof-inside-message", "junk-then-eof", "handler-exception", "write-error", "task-cancelled"]
 
 
 def make_spec():
@@ -134,6 +134,10 @@ class Conn:
             self._eof()
         elif kind == "handler-exception":
             await self._raw('<getProperties version="1.7" device="BOOM"/>\n')
+        elif kind == "task-cancelled":
+            # the serving task is cancelled from outside (a supervisor timing the session out, the server shutting this connection down)
+            self.resolve()
+            self.task.cancel()
         elif kind == "write-error":
             err = ConnectionResetError("broken pipe")
             if self.kind == "tcp":
